@@ -55,7 +55,8 @@ func VerifLemma_C05C_EnumValuePrefix() {
 func VerifLemma_C05C_EnumZeroValue() {
 	file := &lvFile{path: "dir/a.proto"}
 	suffix := verifNondetString(verifParam("SN"))
-	name := lvNondetIdent(verifParam("VN"))
+	// symbolic head + one of the default suffix and its near-misses, so that the default is decided in both directions
+	name := lvNondetIdent(verifParam("VN")) + []string{"", "_UNSPECIFIED", "_UNSPECIFIE", "UNSPECIFIED", "_unspecified"}[verifNondetChoice(5)]
 	number := verifNondetInt(-2147483648, 2147483647)
 	opts := map[string]any{}
 	eff := "_UNSPECIFIED"
@@ -101,7 +102,7 @@ func VerifLemma_C05C_EnumZeroValue() {
 func VerifLemma_C05C_ServiceSuffix() {
 	file := &lvFile{path: "dir/a.proto"}
 	suffix := verifNondetString(verifParam("SN"))
-	name := lvNondetIdent(verifParam("VN"))
+	name := lvNondetIdent(verifParam("VN")) + []string{"", "Service", "Servic", "service", "ServiceX"}[verifNondetChoice(5)]
 	opts := map[string]any{}
 	eff := "Service"
 	if len(suffix) > 0 {
@@ -123,14 +124,15 @@ func VerifLemma_C05C_ServiceSuffix() {
 
 // VerifLemma_C05C_RPCStandardName: RPC_REQUEST_STANDARD_NAME / RPC_RESPONSE_STANDARD_NAME. Method name M and
 // service name S are PascalCase by assumption (so ToPascalCase leaves them alone, C05-A.pascal); the request
-// (response) type is pkg-prefix + L with L fully symbolic. Not reported iff L is M+"Request" or S+M+"Request"
+// (response) type is pkg-prefix + L with L = X or X+"Request" ("Response"), X fully symbolic. Not reported iff L is M+"Request" or S+M+"Request"
 // (resp. "Response"), or the type is google.protobuf.Empty and the allow flag is set; otherwise reported once at
 // the input (output) type location.
 func VerifLemma_C05C_RPCStandardName() {
 	file := &lvFile{path: "dir/a.proto"}
 	m := lvNondetIdent(verifParam("MN"))
-	s := lvNondetIdent(verifParam("MN"))
-	verifAssume(refLintIsPascal(m) && refLintIsPascal(s))
+	s := verifNondetStringN(1) // service name: one capital letter (keeps S+M within reach of X)
+	verifAssume(s[0] >= 'A' && s[0] <= 'Z')
+	verifAssume(refLintIsPascal(m))
 	response := verifNondetBool()
 	word, key, locTag := "Request", "rpc_allow_google_protobuf_empty_requests", "rpc/input"
 	if response {
@@ -141,23 +143,30 @@ func VerifLemma_C05C_RPCStandardName() {
 	if allowEmpty {
 		opts[key] = true
 	}
+	// last component of the type name: X + "Request"/"Response" or a bare X, X every identifier string of 0..LN bytes
+	// (X == M and X == S+M are the two standard names), or Empty
 	var typeName, last string
 	isEmpty := false
-	switch verifNondetChoice(4) {
-	case 0:
+	form := verifNondetChoice(3)
+	if form == 0 {
 		typeName, last, isEmpty = "google.protobuf.Empty", "Empty", true
-	case 1:
-		last = verifNondetString(verifParam("LN"))
-		typeName = last
-	case 2:
-		last = verifNondetString(verifParam("LN"))
-		typeName = "pkg.v1." + last
-	case 3:
-		last = verifNondetString(verifParam("LN"))
-		typeName = "Outer." + last
-	}
-	for i := 0; i < len(last); i++ {
-		verifAssume(refLintIsIdentByte(last[i]))
+	} else {
+		x := verifNondetString(verifParam("LN"))
+		for i := 0; i < len(x); i++ {
+			verifAssume(refLintIsIdentByte(x[i]))
+		}
+		last = x
+		if form == 1 {
+			last = x + word
+		}
+		switch verifNondetChoice(3) {
+		case 0:
+			typeName = last
+		case 1:
+			typeName = "pkg.v1." + last
+		case 2:
+			typeName = "Outer." + last
+		}
 	}
 	svc := &lvService{lvNamed: lvNamed{file: file, id: "svc", name: s}}
 	rpc := &lvMethod{lvNamed: lvNamed{file: file, id: "rpc", name: m}, service: svc, in: "x.In", out: "x.Out"}
